@@ -16,6 +16,7 @@ import MdwModel.Model.Exception
 import MdwModel.Theorems.CtxLayout
 import MdwModel.Theorems.Image
 import MdwModel.Theorems.Refine
+import MdwModel.Theorems.EndToEnd
 namespace Mdw
 
 /-- **C07 (IP window).** -/
@@ -134,5 +135,34 @@ theorem C07_refine_memory_list (b : Buf) (blocks : List Desc) (hb : b.len + 4 + 
 
 theorem C07_refine_app_memory (b : Buf) (app : List (Nat × Bytes)) (hb : b.len + (appBlobs app).length < 2 ^ 32) :
     opApp b app = (⟨b.inner ++ appBlobs app⟩, appBlocksAt b.len app) := Refine_app_memory b app hb
+
+/-- **C07 (end to end, thread stacks).** From the target to the image: when the gathering step of the thread-list writer
+    (`gatherStack`, the composed model of `fill_thread_stack`) records an unsanitized region for the `k`-th thread,
+    the image lists that region in the memory list's blocks at the location the thread record names, and the image
+    bytes at that location are the target's memory at the region's addresses. -/
+theorem C07_e2e_stack (env : GEnv) (cfg : GCfg) (mem : Nat → UInt8) (idx n currPos : Nat) (isCrash : Bool) (sp ip : Nat)
+    (m : Mapping) (d : DumpIn) (k : Nat) (t : DThread) (start : Nat) (bytes : Bytes)
+    (hp : 0 < env.page) (hw : HullOk env.ms) (hr : ReadsExactly env mem)
+    (hf : findMapping env.ms (sp - sp % env.page) = some m) (hs : mayBeStack (some m) = true) (hsp : sp < m.start + m.size)
+    (hns : cfg.sanitize = false)
+    (hg : gatherStack env cfg idx n currPos isCrash sp ip = .ok (some (start, bytes)))
+    (hk : d.threads[k]? = some t) (hst : t.stack = some (start, bytes))
+    (hsz : (dumpBytes d).length < 2 ^ 32) (htid : t.tid < 2 ^ 32) (hstart : start < 2 ^ 64) :
+    let i := Img.ofBytes (dumpBytes d)
+    start ≤ sp ∧ sp < start + bytes.length ∧
+    (⟨start, bytes.length, threadPos d k⟩ : Desc) ∈ (acc3 d).blocks ∧
+    i.bytes (threadPos d k) bytes.length = some ((List.range bytes.length).map (fun j => mem (start + j))) := by
+  intro i
+  obtain ⟨h1, h2, _, hc, _⟩ := E2E_stack_contains_sp env cfg mem idx n currPos isCrash sp ip m start bytes hp hw hr hf hs hsp
+    (fun h => by rw [hns] at h; cases h) hg
+  obtain ⟨_, _, _, hb, hmem⟩ := E2E_stack_in_image d k t start bytes hk hst hsz htid hstart
+  refine ⟨h1, h2, hmem, ?_⟩
+  have : bytes = (List.range bytes.length).map (fun j => mem (start + j)) := by
+    apply List.ext_getElem?
+    intro j
+    by_cases hj : j < bytes.length
+    · rw [hc hns j hj, range_map_get _ _ _ hj]
+    · rw [List.getElem?_eq_none (by omega), List.getElem?_eq_none (by simp; omega)]
+  rw [← this]; exact hb
 
 end Mdw
